@@ -24,7 +24,11 @@ Inductive case :=
 | CRehs (h : rhrow) (y : hs)
 | CHist (tunnels : list (N * N))                 (* tunnel id, peer id *)
         (order : list N)                         (* hostmap order, newest (primary) first *)
-        (steps : list (N * event * pre * ob)).   (* one check each *)
+        (steps : list (N * event * pre * ob * N)).
+        (* one check each: tunnel, environment (e_in / e_out = the traffic the harness really injected since the
+           previous check), the implementation's fields before, what it did, and the TRUE idle time: now minus the
+           instant the harness last injected traffic into this tunnel (its creation when never), kept by the
+           harness itself and never read from HostInfo.lastUsed *)
 
 Definition opt_res_eqb (o : option res) (x : res) : bool := match o with Some y => res_eqb y x | None => false end.
 Definition optN_eqb (a b : option N) : bool := option_eqb N.eqb a b.
@@ -42,17 +46,26 @@ Definition check_rehs (h : rhrow) (y : hs) : list N :=
   flag 1 (match rehs_decide h with Some y' => hs_eqb y y' | None => false end).
 
 (* one check of a history; [w] is the model's world *)
-Definition check_step (w : world) (s : N * event * pre * ob) : option world * list N :=
-  let '(t, e, p, b) := s in
+Definition check_step (w : world) (s : N * event * pre * ob * N) : option world * list N :=
+  let '(t, e, p, b, true_idle) := s in
   let now := w_clk w + e_dt e in
   (* the property on the implementation's own view *)
   let rI := mkRow (e_cert e) (e_dinv e) (is_exh (e_ctr e)) (p_primary p) (p_in p) (p_out p) (p_pd p) (e_dropi e)
                   (idle_ge (p_last p) now (e_timeout e)) false in
   let attempt := rehs_attempt rI && negb (b_removed b) in
+  let ccI := cert_closes (e_cert e) (e_dinv e) in
+  (* removed (or the peer told) for none of the other listed reasons: it is a close for inactivity *)
+  let inactivity := (b_removed b && negb ccI && negb (is_exh (e_ctr e)) && negb (p_pd p && negb (p_in p))) ||
+                    (b_notify b && negb ccI) in
   let spec :=
     if p_known p then
       flag 2 (spec_ok rI (b_removed b) (b_notify b) &&
               implb (p_in p && negb (b_removed b)) (negb (b_pd b)) &&
+              (* against the true traffic history, not the implementation's lastUsed: closed for inactivity only
+                 with drop_inactive on at this check and truly idle for the timeout in force at this check *)
+              implb inactivity (e_dropi e && (e_timeout e <=? true_idle) && p_primary p) &&
+              (* true inbound traffic since the previous check: not removed for lack of traffic *)
+              implb (e_in e && negb ccI && negb (is_exh (e_ctr e))) (negb (b_removed b)) &&
               implb attempt (rehs_spec_ok (rh_of e) (started (b_hs b))) &&
               implb (b_probe b) (p_primary p && p_out p && negb (p_in p))) ++
       flag 3 (eqb (b_removed b) (exact_removed rI) && eqb (b_notify b) (exact_notify rI) &&
@@ -72,7 +85,7 @@ Definition check_step (w : world) (s : N * event * pre * ob) : option world * li
              hs_eqb (b_hs b) y && eqb (b_in b) (t_in st') && eqb (b_out b) (t_out st')))
   end.
 
-Fixpoint check_steps (w : option world) (l : list (N * event * pre * ob)) : list N :=
+Fixpoint check_steps (w : option world) (l : list (N * event * pre * ob * N)) : list N :=
   match l with
   | [] => []
   | s :: r =>
